@@ -34,7 +34,9 @@ var matVals = []uint64{
 	0x400921fb54442d18, // pi
 }
 
-func matVal(k int) float64 { return math.Float64frombits(matVals[((k%len(matVals))+len(matVals))%len(matVals)]) }
+func matVal(k int) float64 {
+	return math.Float64frombits(matVals[((k%len(matVals))+len(matVals))%len(matVals)])
+}
 
 // refMatBytes is the layout documented on (Dense).MarshalBinary.
 func refMatBytes(rows, cols int64, data []float64) []byte {
@@ -534,8 +536,12 @@ func (h matHdr) trueElems(vec bool) *big.Int {
 }
 
 const (
-	matAllocCap  = 1 << 21 // elements (16 MiB) the harness lets a stream decoder allocate
-	matPanicZone = 1 << 58 // from here on make([]float64, n) panics instead of allocating
+	matAllocCap = 1 << 21 // elements (16 MiB) the harness lets a stream decoder allocate
+	// matTooBig: from here on the byte size of the data (8 per element) is not
+	// representable in an int64, "too big for the current architecture", and
+	// the documented answer is an error. Between the two bounds the stream
+	// decoders may allocate without limit (documented) and are not called.
+	matTooBig = 1 << 60
 )
 
 // streamSafe reports whether UnmarshalBinaryFrom may be called with this
@@ -549,7 +555,7 @@ func (h matHdr) streamSafe(vec bool) bool {
 	if !vec {
 		w = h.rows * h.cols // wraps like the decoder's own product
 	}
-	return w <= matAllocCap || w >= matPanicZone
+	return w <= matAllocCap || w >= matTooBig
 }
 
 func isMakeslicePanic(p string) bool {
